@@ -1,4 +1,5 @@
 import Driver.C12
+import Model.MarshalHistory
 namespace Driver.C02
 open Util
 open ValueSpec (CqlTy CqlVal Bytes)
@@ -9,6 +10,8 @@ open Driver.C12 (pTy pVal pGoTy showVal)
 ops (token syntax of Driver/C12.lean):
   rt p T V GT      → merr | uerr | crash | unmodelled | ok V'      model of gocql.Marshal followed by gocql.Unmarshal
                                                                     of the produced bytes into a fresh Go value of type GT
+  rtx p T V GT     → merr | ok V' | refuse-or-same                                  the SPECIFICATION of the cross-kind round trip of an integer column
+  hseq k ; C ; C … → per call same:<bytes> | merr, then late:ok     a sequence of same-type round trips in one process (C = N|A p T V GT)
   rtsame p T V GT  → merr | same                                    the PROPERTY (C02_scalar_roundtrip): whenever Marshal
                                                                     succeeds, decoding into the same Go type gives the value back
 -/
@@ -44,10 +47,45 @@ def runRT (f : Nat → CqlTy → GoVal → GoTy → String) (ws : List String) :
               | none => "bad-op")))
   | [] => "bad-op"
 
+/-- `rtx`: the SPECIFICATION of the cross-kind integer round trip (Model/MarshalCross.lean; no model of gocql) -/
+def crossAnswer (_p : Nat) (t : CqlTy) (g : GoVal) (ty : GoTy) : String :=
+  match crossSpec t g ty with
+  | .merr => "merr"
+  | .ok v => "ok " ++ showVal v
+  | .refuseOr _ => "refuse-or-same"
+  | .unrepresentable => "unrepresentable"
+  | .excluded kf => "excluded:" ++ kf
+  | .undocumented => "undocumented"
+
+/-- one call of an `hseq` line: the same-type round trip holds and the bytes are the SPECIFICATION's encoding of the
+    documented meaning of the value (`Driver.C12.specAnswer`: specEnc ∘ interp) — a function of the call alone -/
+def histCallAnswer (p : Nat) (t : CqlTy) (g : GoVal) (_ty : GoTy) : String :=
+  match Driver.C12.specAnswer p t g with
+  | "err" => "merr"
+  | "null" => "same:null"
+  | s => "same:" ++ (s.drop 3)
+
+def splitCalls : List String → List String → List (List String) → List (List String)
+  | [], cur, acc => (cur.reverse :: acc).reverse
+  | w :: ws, cur, acc => if w == ";" then splitCalls ws [] (cur.reverse :: acc) else splitCalls ws (w :: cur) acc
+
+def histAnswer (ws : List String) : String :=
+  match ws with
+  | k :: ";" :: r =>
+    let calls := splitCalls r [] []
+    if k.toNat? ≠ some calls.length then "bad-op" else
+    let answers := calls.map (fun c => match c with
+      | flag :: c' => if flag == "N" || flag == "A" then runRT histCallAnswer c' else "bad-op"
+      | [] => "bad-op")
+    if answers.any (· == "bad-op") then "bad-op" else " ".intercalate (answers ++ ["late:ok"])
+  | _ => "bad-op"
+
 def step (_ : Unit) (ws : List String) : Unit × String :=
   ((), match ws with
   | "rt" :: r => runRT roundTrip r
   | "rtsame" :: r => runRT roundTripSame r
+  | "rtx" :: r => runRT crossAnswer r
+  | "hseq" :: r => histAnswer r
   | _ => "bad-op")
 
 def init : Unit := ()
